@@ -42,6 +42,7 @@ type RunSpec struct {
 	ExampleN     int               `json:"exampleN,omitempty"`
 	Expect       string            `json:"expect,omitempty"`       // relation to an earlier run the specification must check
 	ExpectRun    int               `json:"expectRun,omitempty"`    // which earlier run (1-based; 0 = the previous one)
+	ShadowPrev   string            `json:"shadowPrev,omitempty"`   // -rapid.failfile=<another directory>/<base name of the file saved by the previous run>, with this (unusable) content
 	StashPrev    bool              `json:"stashPrev,omitempty"`    // move the file saved by the previous run out of testdata (to ./stash) first
 	FailfileRun  int               `json:"failfileRun,omitempty"`  // -rapid.failfile=<file saved by run k> (after stashing, its new place)
 	FuzzFrom     []string          `json:"fuzzFrom,omitempty"`     // extra fuzz inputs: "recorded" / "pruned" words of the last recording made in an earlier run
@@ -317,6 +318,12 @@ func RunScenario(t *testing.T, rec *Recorder, sc *Scenario) {
 		}
 		if run.FailfilePrev && prevFile != "" {
 			extra["rapid.failfile"] = prevFile
+		}
+		if run.ShadowPrev != "" && prevFile != "" {
+			sh := filepath.Join("elsewhere", filepath.Base(prevFile))
+			_ = os.MkdirAll("elsewhere", 0o775)
+			_ = os.WriteFile(sh, []byte(run.ShadowPrev), 0o664)
+			extra["rapid.failfile"] = sh
 		}
 		if run.FailfileRun > 0 && savedFiles[run.FailfileRun] != "" {
 			extra["rapid.failfile"] = savedFiles[run.FailfileRun]
